@@ -535,6 +535,83 @@ def lift_get_annotated(cls):
             "def bare_callable_name : Option String := none")
 
 
+def lift_extract_result(cls):
+    """`MetricFrame._extract_result` (which part of the underlying pandas result the accessors return) and the
+    `no_control_levels=` flags `_populate_results` passes for `overall` and `by_group`"""
+    fn = next((n for n in cls.body if isinstance(n, ast.FunctionDef) and n.name == "_extract_result"), None)
+    if fn is None:
+        raise U(MF, "_extract_result not found")
+    params = [x.arg for x in fn.args.args]
+    if params != ["self", "underlying_result", "no_control_levels"]:
+        raise U(MF, f"_extract_result: parameters {params}")
+    res, flag = params[1], params[2]
+
+    def cond(e):
+        if isinstance(e, ast.BoolOp):
+            return "(" + (" || " if isinstance(e.op, ast.Or) else " && ").join(cond(v) for v in e.values) + ")"
+        if isinstance(e, ast.UnaryOp) and isinstance(e.op, ast.Not):
+            return f"(!{cond(e.operand)})"
+        if is_name(e, flag):
+            return ident(flag)
+        src = ast.unparse(e)
+        if src == "self._user_supplied_callable":
+            return "user_supplied_callable"
+        if src == "self.control_levels":      # truthiness of the list of names: None or [] is false
+            return "control_levels"
+        raise U(MF, f"_extract_result: unsupported condition {src}")
+
+    def value(e):
+        if is_name(e, res):
+            return "Extract.whole"
+        if isinstance(e, ast.Subscript) and isinstance(e.value, ast.Attribute) and e.value.attr == "iloc" and is_name(e.value.value, res):
+            sl = e.slice
+            if isinstance(sl, ast.Constant) and sl.value == 0:
+                return "Extract.entry0"
+            if isinstance(sl, ast.Tuple) and len(sl.elts) == 2 and isinstance(sl.elts[0], ast.Slice) \
+                    and sl.elts[0].lower is None and sl.elts[0].upper is None and sl.elts[0].step is None \
+                    and isinstance(sl.elts[1], ast.Constant) and sl.elts[1].value == 0:
+                return "Extract.column0"
+        raise U(MF, f"_extract_result: unsupported result {ast.unparse(e)}")
+
+    def block(body, ind):
+        body = no_doc(body)
+        if len(body) == 1 and isinstance(body[0], ast.Return):
+            return [ind + value(body[0].value)]
+        if len(body) == 1 and isinstance(body[0], ast.If) and body[0].orelse:
+            st = body[0]
+            return [f"{ind}if {cond(st.test)} then"] + block(st.body, ind + "  ") + [f"{ind}else"] + block(st.orelse, ind + "  ")
+        if len(body) == 2 and isinstance(body[0], ast.If) and not body[0].orelse and isinstance(body[1], ast.Return):
+            st = body[0]
+            return [f"{ind}if {cond(st.test)} then"] + block(st.body, ind + "  ") + [f"{ind}else"] + block([body[1]], ind + "  ")
+        raise U(MF, "_extract_result: unsupported body shape")
+    lines = block(fn.body, "  ")
+    # the flags in _populate_results
+    pop = next((n for n in cls.body if isinstance(n, ast.FunctionDef) and n.name == "_populate_results"), None)
+    if pop is None:
+        raise U(MF, "_populate_results not found")
+    flags = {}
+    for st in pop.body:
+        if isinstance(st, ast.Assign) and len(st.targets) == 1 and isinstance(st.targets[0], ast.Subscript) \
+                and ast.unparse(st.targets[0].value) == "self._result_cache" and isinstance(st.targets[0].slice, ast.Constant) \
+                and st.targets[0].slice.value in ("overall", "by_group"):
+            key = st.targets[0].slice.value
+            c = st.value
+            if not (isinstance(c, ast.Call) and ast.unparse(c.func) == "self._extract_result" and len(c.args) == 1
+                    and ast.unparse(c.args[0]) == f"raw_result.{key}" and len(c.keywords) == 1
+                    and c.keywords[0].arg == flag and isinstance(c.keywords[0].value, ast.Constant)
+                    and isinstance(c.keywords[0].value.value, bool)):
+                raise U(MF, f"_populate_results: unexpected {key} assignment {ast.unparse(st)}")
+            flags[key] = c.keywords[0].value.value
+    if set(flags) != {"overall", "by_group"}:
+        raise U(MF, "_populate_results: overall / by_group cache entries not found")
+    lean = ("/-- `MetricFrame._extract_result` -/\n"
+            f"def extract_result (user_supplied_callable control_levels {ident(flag)} : Bool) : Extract :=\n" + "\n".join(lines) + "\n\n"
+            "/-- `_populate_results`: the flag passed for `overall` / `by_group` -/\n"
+            f"def overall_no_control_levels : Bool := {'true' if flags['overall'] else 'false'}\n"
+            f"def by_group_no_control_levels : Bool := {'true' if flags['by_group'] else 'false'}")
+    return lean, flags
+
+
 @translate.lifter
 def lift(repo):
     def parse(rel):
@@ -565,6 +642,7 @@ def lift(repo):
         raise U(MF, "class MetricFrame not found")
     cons_lean, cons_meta = lift_construct(mcls)
     bare_lean = lift_get_annotated(mcls)
+    extract_lean, extract_meta = lift_extract_result(mcls)
     lean = f"""-- GENERATED by harness/lifters/frame.py from {DR}, {AMF}, {MF}; do not edit.
 -- Translation of the function bodies over the pandas primitives of Model/FramePrims.lean.
 import FairModel.Model.FramePrims
@@ -576,7 +654,7 @@ open Frame FramePrims
 
 variable {{α β γ : Type}}
 
-""" + "\n\n".join([af_lean] + create_lean + [atd_lean, call_lean, cons_lean, bare_lean]) + "\n\nend FrameSrc\n"
-    meta = {"sources": [DR, AMF, MF], "grouping": create_meta, "call": call_meta, "construct": cons_meta,
+""" + "\n\n".join([af_lean] + create_lean + [atd_lean, call_lean, cons_lean, bare_lean, extract_lean]) + "\n\nend FrameSrc\n"
+    meta = {"sources": [DR, AMF, MF], "grouping": create_meta, "call": call_meta, "construct": cons_meta, "extract_flags": extract_meta,
             "sha256": hashlib.sha256(lean.encode()).hexdigest()}
     return "FrameSrc.lean", lean, meta
